@@ -19,7 +19,10 @@
 (* against the real libraries over the bounded domain (GlobCal / DockCal    *)
 (* records); constructs on which the libraries have surprising character    *)
 (* level behaviour ("a**", "[^x]" in Docker patterns, escapes, braces) are  *)
-(* outside the token grammar.                                               *)
+(* outside the token grammar; so are consecutive "**" components after a    *)
+(* literal one in Mutagen patterns (doublestar: "a/**" matches "a" but       *)
+(* "a/**/**" does not) - found by the random leg, removed from the          *)
+(* generator rather than argued about.                                      *)
 (***************************************************************************)
 EXTENDS Naturals, Sequences, FiniteSets, TLC
 
